@@ -137,6 +137,14 @@ func (e *Engine) lookupSpec(name string, pkg *types.Package) *SpecFunc {
 	// qualified: pkgname.f
 	if i := strings.Index(name, "."); i > 0 {
 		pn, fn := name[:i], name[i+1:]
+		if ip := e.importedPkg(pkg, pn); ip != nil {
+			if sf, ok := e.specs[ip.Path()+"#"+fn]; ok {
+				if sf.Pkg == nil {
+					sf.Pkg = ip
+				}
+				return sf
+			}
+		}
 		for key, sf := range e.specs {
 			j := strings.Index(key, "#")
 			if j < 0 || key[j+1:] != fn {
